@@ -7,6 +7,7 @@ import (
 	"fmt"
 	"math"
 	"os"
+	"os/exec"
 	"path/filepath"
 	"sort"
 	"strconv"
@@ -61,6 +62,11 @@ func clip(s string) string {
 // guarded runs f with the probe guard installed; returns the guard state.
 func guarded(f func()) *guard.State {
 	st := &guard.State{Budget: instrBudget, MaxElems: 1 << 16}
+	if os.Getenv("VERIF_C05_UNGUARDED") != "" {
+		// sacrificial child of TestKnownFindings: let the excluded
+		// operation happen
+		st.NoCycleStop = true
+	}
 	remove := guard.Install(st)
 	defer remove()
 	f()
@@ -603,6 +609,30 @@ func readFuzzFile(path string) ([]byte, error) {
 		}
 	}
 	return nil, fmt.Errorf("no []byte value in %s", path)
+}
+
+// TestKnownFindings demonstrates the open finding F10 in a sacrificial child
+// process (a Go fatal error cannot be recovered in-process): the committed
+// reproducer is run without the cycle guard and must take the child down.
+func TestKnownFindings(t *testing.T) {
+	root := os.Getenv("VERIF_ROOT")
+	if root == "" {
+		root = "/verif"
+	}
+	files, _ := filepath.Glob(filepath.Join(root, "replays", "C05", "open", "F10-*.json"))
+	sort.Strings(files)
+	for _, f := range files {
+		cmd := exec.Command(os.Args[0], "-test.run", "^TestReplay$", "-test.count", "1")
+		cmd.Env = append(os.Environ(), "VERIF_REPLAY="+f, "VERIF_C05_UNGUARDED=1", "VERIF_EVID_OUT=", "VERIF_INFLIGHT=", "GOMAXPROCS=2")
+		out, err := cmd.CombinedOutput()
+		died := err != nil && (strings.Contains(string(out), "fatal error: stack overflow") || strings.Contains(string(out), "goroutine stack exceeds"))
+		if died {
+			ev.Known("F10", "a self-containing array/map (a := [1]; a[0] = a; a == a) makes ==, string(), copy() recurse until the Go runtime aborts the host process (fatal error: stack overflow) ["+filepath.Base(f)+"]")
+		} else {
+			ev.Note("finding F10 no longer reproduces with " + filepath.Base(f) + ": retire it")
+			t.Logf("child output: %s", clip(string(out)))
+		}
+	}
 }
 
 func TestRegressions(t *testing.T) {
